@@ -31,6 +31,7 @@ func (e *Engine) decUF(t *T) *T {
 			Eq(UF("undec", BVS(64), d), t),
 			UF("pu_ok", BoolS, d),
 			InRe(d, canonDecRe),
+			InRe(d, `((_ re.loop 1 20) (re.range "0" "9"))`),
 			IntCmp("<=", mk("str.len", IntS, d), IntConst(20)),
 		}
 		// exact digit counts (opt-in per harness): len(dec n) = k  <=>  10^(k-1) <= n < 10^k
@@ -47,7 +48,11 @@ func (e *Engine) decUF(t *T) *T {
 			ax = append(ax, Implies(And(lo, hi), Eq(mk("str.len", IntS, d), IntConst(int64(k)))))
 			pow *= 10
 		}
-		e.addAxiom(key, AndN(ax...))
+		// separate conjuncts, so that a weakened query can drop the regular-expression fact alone
+		for i, a := range ax {
+			e.addAxiom(fmt.Sprintf("%s/%d", key, i), a)
+		}
+		e.axiomSeen[key] = true
 	}
 	return d
 }
@@ -139,15 +144,14 @@ func init() {
 		if c, ok := goStr(s); ok {
 			return StrConst(strings.TrimSpace(c))
 		}
-		// uninterpreted with the facts ibc-go relies on: result empty iff input is all-whitespace; no-whitespace inputs unchanged
-		ws := `(re.* (re.union (str.to_re " ") (str.to_re "\u{9}") (str.to_re "\u{a}") (str.to_re "\u{b}") (str.to_re "\u{c}") (str.to_re "\u{d}")))`
-		nows := `(re.* (re.union (re.range "\u{0}" "\u{8}") (re.range "\u{e}" "\u{1f}") (re.range "!" "\u{ff}")))`
+		// uninterpreted; "TrimSpace(s) == \"\"" is decided by a peephole in Eq (s is all-whitespace);
+		// the remaining facts: the result is a substring, and whitespace-free inputs are unchanged
 		r := UF("trimspace", StrS, s)
-		e.addAxiom(fmt.Sprintf("trim:%d", s.id), AndN(
-			Eq(Eq(r, StrConst("")), InRe(s, ws)),
-			Implies(InRe(s, nows), Eq(r, s)),
-			StrContains(s, r),
-		))
+		noWS := tTrue
+		for _, ws := range []string{" ", "\t", "\n", "\v", "\f", "\r"} {
+			noWS = And(noWS, Not(StrContains(s, StrConst(ws))))
+		}
+		e.addAxiom(fmt.Sprintf("trim:%d", s.id), AndN(StrContains(s, r), Implies(noWS, Eq(r, s))))
 		e.note("strings.TrimSpace on symbolic input: ASCII whitespace only (Unicode spaces outside the claim)")
 		return r
 	}))
@@ -522,6 +526,21 @@ func (e *Engine) fmtArg(verb byte, iv *IfaceVal) *T {
 				}
 			}
 		}
+	}
+	if iv.T != nil && isByteSlice(iv.T) {
+		// []byte operands print like strings for %s / %v-as-bytes is a list, only %s %x %X %q are supported here
+		bz := toSeq(iv.V)
+		switch verb {
+		case 's':
+			return bz
+		case 'x':
+			return e.hexUF(bz, false)
+		case 'X':
+			return e.hexUF(bz, true)
+		case 'q':
+			return UF("quote", StrS, bz)
+		}
+		return StrConst("<bytes>")
 	}
 	switch v := iv.V.(type) {
 	case *T:
